@@ -12,7 +12,7 @@ LEVEL = 'Generated-input exploration: each selection maximises the independently
 BUDGET = {"quick": 1200, "thorough": 12000}
 RULE = ("Cases: CUR / PCovCUR x {feature, sample}; X kinds generic, eighths (near ties), lowrank, dup and nearly low-rank (rank-r part + 1e-5 full-rank part) with a global scale in "
         "{1e-7,1e-3,.1,1,10} (1e3 only with tolerance 1e-8), 4..13 x 4..10 (thorough: to 40 x 24); numerical rank r is measured and the number of selections is drawn in "
-        "[1, r-k]; y 1-D; k in 1..3 (k < min shape); mixing {0,.2,.5,.8,1}; recompute_every {0,1,2,3}; tolerance {1e-12,1e-8}.  "
+        "[1, r-k]; y 1-D; k in 1..3 (k < min shape); mixing {0,.2,.5,.8,1}; recompute_every {0,1,2,3}; tolerance {1e-12,1e-8}; 30% of the cases reach the request through a warm start whose first part used another refresh interval (final residual judged).  "
         "Oracle: residual by an independent QR projection, unexplained y by lstsq, importance score from dense SVD / eigh at the "
         "most recent refresh point; the score actually used at each step is recorded by a harness-side wrapper of score().  A step "
         "is judged only when the gap between the k-th and (k+1)-th singular/eigen value is > 1e-6 (tolerance 1e-7/gap).  "
@@ -56,7 +56,11 @@ def strategy_(draw, tier):
     if cls == "PCovCUR":
         params["mixing"] = draw(st.sampled_from([0.0, 0.2, 0.5, 0.8, 1.0]))
     y = S.draw_y(draw, n, X)
-    return {"cls": cls, "direction": direction, "kind": kind, "X": X, "y": y, "params": params, "nsel": nsel, "rank": r}
+    # optionally reach nsel through a warm start, possibly with another refresh interval for the first part
+    warm = None
+    if nsel >= 2 and draw(st.integers(0, 9)) < 3:
+        warm = {"first_n": draw(st.integers(1, nsel - 1)), "first_recompute": draw(st.sampled_from([0, 1, 2, params["recompute_every"]]))}
+    return {"cls": cls, "direction": direction, "kind": kind, "X": X, "y": y, "params": params, "nsel": nsel, "rank": r, "warm": warm}
 
 
 def strategy(tier):
@@ -194,19 +198,38 @@ def check(case, ctx):
     axis = 0 if direction == "sample" else 1
     prm = case["params"]
     ctx.cls("cls=%s/%s" % (cls, direction), "kind=" + case["kind"], "recompute_every=%d" % prm["recompute_every"], "k=%d" % prm["k"])
-    sel = S.make(cls, direction, n_to_select=case["nsel"], **prm)
-    rec = S.Recorder(sel)
-    with ctx.lib("fit"):
-        sel.fit(X, y)
+    warm = case.get("warm")
+    if warm:
+        # fit the first part (possibly with another refresh interval), then change the parameters and continue
+        ctx.cls("warm_chain", "first_recompute=%d" % warm["first_recompute"])
+        p0 = dict(prm, recompute_every=warm["first_recompute"])
+        sel = S.make(cls, direction, n_to_select=warm["first_n"], **p0)
+        with ctx.lib("fit-first-part"):
+            sel.fit(X, y)
+        sel.recompute_every = prm["recompute_every"]
+        sel.n_to_select = case["nsel"]
+        rec = S.Recorder(sel)
+        with ctx.lib("fit-warm"):
+            sel.fit(X, y, warm_start=True)
+    else:
+        sel = S.make(cls, direction, n_to_select=case["nsel"], **prm)
+        rec = S.Recorder(sel)
+        with ctx.lib("fit"):
+            sel.fit(X, y)
     idx = [int(i) for i in sel.selected_idx_]
     if len(set(idx)) != len(idx):
         ctx.fail("repeated-index", str(idx))
         return
     pis = [c[1] for c in rec.calls]
-    judged, clean = walk(case, ctx, idx, pis)
+    if warm:
+        # the step-wise oracle models a single cold search; for a chain only the final state is judged
+        judged, clean = 0, False
+        ctx.true("warm:count", len(idx) == case["nsel"], "%d selections for request %d" % (len(idx), case["nsel"]))
+    else:
+        judged, clean = walk(case, ctx, idx, pis)
     ctx.count("steps_judged", judged)
     ctx.count("steps_total", len(idx))
-    if judged >= 2:
+    if judged >= 2 or (warm and len(idx) >= 3):
         ctx.nontrivial = True
     sc = float(np.abs(X).max())
     if prm["recompute_every"] != 0:
